@@ -152,6 +152,7 @@ include!("handshake.in.rs");
 
 #[cfg(kani)]
 #[kani::proof]
+#[kani::unwind(3)]
 fn socks_handshake_all_paths() {
     let udp_timeout: u64 = kani::any();
     let idle_timeout: u64 = kani::any();
